@@ -50,6 +50,13 @@ class C04(FCheck):
         if r.random() < 0.2:
             ops.append(gen.f_op("src/.gitignore", 6, runs=[]))
             flags["gitignore"] = True
+        if mode in ("fresh", "into-dir") and r.random() < 0.35:
+            # --dereference: links (to a file, to a directory, through a chain) must be resolved or the run must fail
+            ops = [o for o in ops if o["op"] != "symlink"]
+            ops += [gen.d_op("out"), gen.f_op("out/tfile", 700, pat=4), gen.d_op("out/tdir"), gen.f_op("out/tdir/in", 30, pat=5),
+                    gen.l_op("src/lf", "$ROOT/out/tfile"), gen.l_op("src/ld", "../out/tdir"), gen.l_op("out/c1", "tfile"), gen.l_op("src/lc", "$ROOT/out/c1")]
+            flags["L"] = True
+        gen.swarm_flags(r, flags, allow=("no_progress",))
         srcs = ["src"]
         if mode == "noclobber":
             # top-level entries given one by one into the existing dst/ (xcp -n refuses an existing directory outright,
